@@ -65,7 +65,12 @@ computes a sufficient amount, Theorems/C07 proves it sufficient).
                               fires its `LocalResourceNotifier`: at once (`localNow`: the fallback is rendered in place)
                               or after a future (`localWait`: the view future resolves to `None`, `replace = false`);
                               server resources read synchronously (`resRead`) or awaited in a `Suspend` (`resSuspend`)
-                              are tasks the boundary waits for); `ErrorBoundary`.
+                              are tasks the boundary waits for — if it sees them while it walks its children
+                              (`dry_resolve`): `compileA` carries the resources that had loaded by then (`was`,
+                              `iteTree` over `guardsOf`), a read first evaluated during `children.resolve()` is late
+                              (F-C07-6, `noLate`)); `ErrorBoundary`.  Islands (`Island`, `IslandChildren`), branch
+                              markers (`to_html_stream_*_branching`) and a provided nonce are text / the `nonce`
+                              argument of `suspense` as far as the stream goes: Driver/C07 `parseViews`.
 * `applyScripts`           — the browser side of out-of-order streaming, as the emitted script does it:
                               a `<template id="{id}f">` … `</template><script…>…</script>` block is taken out of the
                               text; `open`/`close` are the **last** comments `s-{id}o` / `s-{id}c` of the document so
